@@ -88,8 +88,8 @@ canonical address (whatever the literals) -/
 theorem addRemoteCandidate_prflx_gone {a : Agent} (h : Inv a) (c : Cand) (hc : a.closed = false)
     (hb : a.cfg.blockedIPs.contains (ipOf c.addr) = false)
     (hf : (a.remotes.filter (·.net == c.net)).find? (·.equal c) = none) (hty : c.ty ≠ 3) :
-    ∀ e ∈ rcsOf (a.addRemoteCandidate c).1, ¬ (e.ty = 3 ∧ e.net = c.net ∧ e.addr = c.addr) := by
-  intro e he ⟨ety, enet, eaddr⟩
+    ∀ e ∈ rcsOf (a.addRemoteCandidate c).1, ¬ (e.ty = 3 ∧ e.taEqual c = true) := by
+  intro e he ⟨ety, eta⟩
   rw [arc_eq a c hb hf] at he
   obtain ⟨h1, _, _⟩ := arcA4_spec h c hc hb hf
   have he' : e ∈ rcsOf (arcA3 a c) := by
@@ -104,8 +104,12 @@ theorem addRemoteCandidate_prflx_gone {a : Agent} (h : Inv a) (c : Cand) (hc : a
       rw [if_neg (by simpa [arcC0] using hty)]
       rw [List.mem_filter]
       refine ⟨he0, ?_⟩
-      simp only [core_ty, core_net, core_addr] at ety enet eaddr
-      simp [arcC0, Cand.taEqual, ety, enet, eaddr]
+      have eta' : e0.taEqual (arcC0 a c) = true := eta
+      have enet : e0.net = c.net := by
+        simp only [Cand.taEqual, Bool.and_eq_true, beq_iff_eq] at eta
+        exact eta.1.1
+      have ety' : e0.ty = 3 := ety
+      simp [arcC0, eta', enet, ety'] at eta' ⊢
     have : (arcS a c).contains (core e0).uid = true := by
       rw [List.contains_iff_mem]
       exact List.mem_map.2 ⟨e0, hrep, rfl⟩
@@ -117,16 +121,27 @@ theorem addRemoteCandidate_prflx_gone {a : Agent} (h : Inv a) (c : Cand) (hc : a
 
 /-- the `addRemote` event with a NEW signalled candidate: no peer-reflexive candidate is left at its canonical
 transport address -/
-theorem step_addRemote_prflx_gone {a : Agent} (h : Inv a) (now : Nat) (c : Cand) (hc : a.closed = false)
+theorem step_addRemote_prflx_gone {a : Agent} (h : Inv a) (hact : ∀ x ∈ rcsOf a, x.tt ≠ 1) (now : Nat) (c : Cand)
+    (hc : a.closed = false)
     (hb : a.cfg.blockedIPs.contains (ipOf c.addr) = false)
     (hf : (a.remotes.filter (·.net == c.net)).find? (·.equal c) = none) (hty : c.ty ≠ 3) :
-    ∀ e ∈ rcsOf (step a (.addRemote now c)).1, ¬ (e.ty = 3 ∧ e.net = c.net ∧ e.addr = c.addr) := by
+    ∀ e ∈ rcsOf (step a (.addRemote now c)).1, ¬ (e.ty = 3 ∧ e.taEqual c = true) := by
   have h0 := addRemoteCandidate_prflx_gone h c hc hb hf hty
-  simp only [step, hc]
+  by_cases ht : c.tt = 1
+  · -- ignored by the public API: nothing changes, and a listed candidate is never tcptype active … not needed:
+    -- a peer-reflexive candidate with tcptype active at this address would have to be listed already
+    intro e he ⟨ety, eta⟩
+    have hs : step a (.addRemote now c) = (a, []) := by simp [step, hc, ht]
+    rw [hs] at he
+    simp only [Cand.taEqual, Bool.and_eq_true, beq_iff_eq] at eta
+    exact hact e he (eta.2.1.trans ht)
+  have hs : step a (.addRemote now c) =
+      (((a.addRemoteCandidate c).1.runForced now).1, (a.addRemoteCandidate c).2.1 ++ ((a.addRemoteCandidate c).1.runForced now).2) := by
+    simp [step, hc, ht]
+  rw [hs]
   generalize a.addRemoteCandidate c = x at h0
   obtain ⟨b, o, rc⟩ := x
   have h2 := (EvoW.runForced b now).rcs_or_wiped
-  simp only [Bool.false_eq_true, if_false]
   generalize b.runForced now = y at h2
   obtain ⟨d, o'⟩ := y
   intro e he
@@ -135,5 +150,69 @@ theorem step_addRemote_prflx_gone {a : Agent} (h : Inv a) (now : Nat) (c : Cand)
   · have h2' : d.remotes = [] := h2
     have : rcsOf d = [] := by simp [rcsOf, h2']
     rw [this] at he; cases he
+
+/-! ## no listed remote candidate has tcptype active
+
+The public `AddRemoteCandidate` ignores a candidate with tcptype active, and a discovered peer-reflexive candidate
+carries no tcptype. -/
+
+def RemNoActive (a : Agent) : Prop := ∀ x ∈ rcsOf a, x.tt ≠ 1
+
+theorem RemNoActive.stage3 {a : Agent} (h : Inv a) (hp : RemNoActive a) (c : Cand) (hsrc : c.tt ≠ 1) :
+    RemNoActive (arcA3 a c) := by
+  intro x hx
+  rw [arcA3_rcs a c h] at hx
+  have := (List.mem_filter.1 hx).1
+  rcases List.mem_append.1 this with hx' | hx'
+  · exact hp x hx'
+  · simp at hx'; subst hx'
+    simpa [arcC0] using hsrc
+
+theorem noActive_trans {e : Ev} {w : Bool} (hev : ∀ now c, e = .addRemote now c → c.tt ≠ 1) {b c : Agent} (hi : Inv b)
+    (hp : RemNoActive b) (t : Trans e w b c) : RemNoActive c := by
+  cases t with
+  | evo h => unfold RemNoActive; rw [h.rcs]; exact hp
+  | addP h =>
+    cases h with
+    | none => exact hp
+    | add l r hl hr hn hfresh => exact hp
+  | wf _ h =>
+    obtain ⟨_, _, h3, _⟩ := h.wiped
+    simp [RemNoActive, rcsOf, h3]
+  | connState s hs hn => exact hp
+  | «local» c hc hf => exact hp
+  | remote c hc hb hf hsrc =>
+    refine hp.stage3 hi c ?_
+    rcases hsrc with ⟨_, _, _, h4⟩ | ⟨now, he⟩
+    · rw [h4]; decide
+    · exact hev now c he
+  | cache x hl hr hc => exact hp
+  | restart now u p _ _ => simp [RemNoActive, rcsOf, restartCore, Agent.wipe, Agent.resetSelector]
+  | close _ _ => simp [RemNoActive, rcsOf, closeCore]
+
+theorem noActive_step {a : Agent} (hi : Inv a) (hp : RemNoActive a) (e : Ev) : RemNoActive (step a e).1 := by
+  by_cases hev : ∀ now c, e = .addRemote now c → c.tt ≠ 1
+  · exact Chain.preserves (fun x => RemNoActive x) (fun _ _ hb hq t => noActive_trans hev hb hq t) hi hp (step_chain hi e)
+  · have : ∃ now c, e = .addRemote now c ∧ c.tt = 1 := by
+      apply Classical.byContradiction
+      intro hn
+      exact hev fun now c he ht => hn ⟨now, c, he, ht⟩
+    obtain ⟨now, c, rfl, ht⟩ := this
+    have : (step a (.addRemote now c)).1 = a := by
+      simp only [step]
+      split
+      · rfl
+      · simp [ht]
+    rw [this]; exact hp
+
+theorem noActive_run {a : Agent} (hi : Inv a) (hp : RemNoActive a) (evs : List Ev) : RemNoActive (run a evs) := by
+  unfold run
+  induction evs generalizing a with
+  | nil => exact hp
+  | cons e evs ih => exact ih (hi.step e) (noActive_step hi hp e)
+
+theorem Init.noActive {a : Agent} (h : Init a) : RemNoActive a := by
+  obtain ⟨_, _, h3, _⟩ := h
+  simp [RemNoActive, rcsOf, h3]
 
 end IceProofs.AgentC06
